@@ -1,5 +1,6 @@
 mod daemon;
 mod build;
+mod cands;
 mod evalseq;
 mod agentrun;
 mod fakecli;
@@ -60,6 +61,7 @@ fn main() {
         "build" => build::main(&opts),
         "logs" => logs::main(&opts),
         "evalseq" => evalseq::main(&opts),
+        "cands" => cands::main(&opts),
         _ => {
             eprintln!("unknown op {op}");
             std::process::exit(2);
